@@ -378,8 +378,12 @@ def g_script(rng):
             starts += 1
             if starts > 2:
                 continue
-        ents.append("%d:%d:%d" % (h, rng.choice([0, 0, 0, 1, 1, 2, 3]), a))
-    return ";".join(ents)
+        ents.append((h, rng.choice([0, 0, 0, 1, 1, 2, 3]), a))
+    # one entry per (hook, call): the C driver lets the last duplicate win, the model driver the first
+    seen = {}
+    for h, cn, a in ents:
+        seen[(h, cn)] = a
+    return ";".join("%d:%d:%d" % (h, cn, a) for (h, cn), a in seen.items())
 
 
 def class_callbacks(rng, n):
